@@ -214,7 +214,11 @@ def _duration_rule(chk, mod):
     cls = mod.cls('DurationTypeIO')
     fmt = [st for st in cls.body if isinstance(st, ast.Assign) and src(st.targets[0]) == '_duration_format']
     rx = [st for st in cls.body if isinstance(st, ast.Assign) and src(st.targets[0]) == '_duration_regex']
-    ok = len(fmt) == 1 and isinstance(fmt[0].value, ast.Constant) and '{seconds:f}' in fmt[0].value.value
+    ok = False
+    if len(fmt) == 1 and isinstance(fmt[0].value, ast.Constant) and isinstance(fmt[0].value.value, str):
+        import string
+        specs = [spec for _lit, field, spec, _conv in string.Formatter().parse(fmt[0].value.value) if field == 'seconds']
+        ok = len(specs) == 1 and specs[0].endswith('f')
     chk.judge(ok, 'C40.duration', fmt[0] if fmt else cls, 'seconds are printed in fixed-point notation (a float below 1e-4 would otherwise print with an exponent the reader rejects)',
               'seconds are printed with the default float format: durations below 100 microseconds become e.g. 1e-06S, which the reader\'s pattern rejects')
     pat = rx[0].value.args[0].value if rx and isinstance(rx[0].value, ast.Call) and rx[0].value.args and isinstance(rx[0].value.args[0], ast.Constant) else ''
